@@ -6,6 +6,8 @@ import (
 	"fmt"
 
 	"pgregory.net/rapid"
+
+	"verif/internal/hx"
 )
 
 type gctx struct {
@@ -150,7 +152,7 @@ func drawBlock(g gctx) []Stmt {
 }
 
 func drawCase(rt *rapid.T) Case {
-	names := rapid.IntRange(1, 3).Draw(rt, "names")
+	names := rapid.SampledFrom([]int{1, 2, 2, 3, 3}).Draw(rt, "names")
 	nthreads := rapid.OneOf(rapid.IntRange(2, 4), rapid.IntRange(2, 8), rapid.IntRange(2, 16)).Draw(rt, "threads")
 	nb := 4
 	if nthreads < nb {
@@ -159,7 +161,11 @@ func drawCase(rt *rapid.T) Case {
 	nbodies := rapid.IntRange(1, nb).Draw(rt, "bodies")
 	c := Case{}
 	for i := 0; i < nbodies; i++ {
-		blocks := rapid.IntRange(1, 6).Draw(rt, "blocks")
+		maxBlocks := 6
+		if hx.Thorough() {
+			maxBlocks = 10
+		}
+		blocks := rapid.IntRange(1, maxBlocks).Draw(rt, "blocks")
 		g := gctx{rt: rt, names: names, blocks: &blocks}
 		// a body starts with a block so that every thread takes part
 		stmts := drawBlock(g)
